@@ -144,6 +144,7 @@ def parseTok (s : St) (t : String) : Option (List Choice) :=
   | ['Q'] => some []
   | 'G' :: rest => ((String.ofList rest).splitOn ",").mapM String.toNat? |>.map (fun _ => [])
   | 'W' :: rest => ((String.ofList rest).splitOn ",").mapM String.toNat? |>.map (fun _ => [])
+  | 'Y' :: rest => (String.ofList rest).toNat?.map (fun _ => [])
   | ['B'] => some [.abort]
   | ['D'] => some [.dispatch]
   | ['P'] => some [.panic]
